@@ -154,6 +154,10 @@ def month_table_rule(ctx: Ctx, rid: str):
 
 
 def run_extra(ctx: Ctx):
+    # ---------------------------------------------------------------- R14.7 weekly / daily limit periods are calendar weeks and days of the
+    # slot's own date: a project moved by whole weeks across a year end keeps its weeks (= C05 R05.6)
+    from .c05 import period_index_rule
+    period_index_rule(ctx, "R14.7")
     # ---------------------------------------------------------------- R14.6 the per-scenario limit objects are complete copies: a limit that stops counting at the declared end depends on where in the calendar that end falls (= C05 R05.7)
     from .c05 import limit_copy_rule
     limit_copy_rule(ctx, "R14.6")
